@@ -151,11 +151,21 @@ Fixpoint all_same (l : list tstate) : bool :=
 Definition ok_finals_agree (B : list task) (l : list oemi) : bool :=
   forallb (fun t => all_same (ofinal_states (t_uid t) l)) B.
 
+(* the executor releases the slots of every task it receives exactly once;
+   no other station releases anything *)
+Definition ounsched (u : Z) (l : list oemi) : nat :=
+  length (filter (fun e => match e with OUnsched v => v =? u | _ => false end) l).
+Definition ok_released_once (c : comp) (B : list task) (l : list oemi) : bool :=
+  forallb (fun t => Nat.eqb (ounsched (t_uid t) l) (match c with CAExec => 1%nat | _ => O end)) B
+  && forallb (fun e => match e with
+                       | OUnsched v => existsb (fun t => t_uid t =? v) B
+                       | _ => true end) l.
+
 Definition clauses_comp (c : comp) (bf : bool) (cl : list Z) (B : list task)
   (ret : oret) (l : list oemi) (oheld : list Z) : list bool :=
   [ ok_survives ret; ok_accounted B oheld l; ok_final_xor_forward B l;
     ok_no_bystander c bf B l; ok_failure_recorded l; ok_cancel_requested c cl B l;
-    ok_done_truthful c B l; ok_finals_agree B l ].
+    ok_done_truthful c B l; ok_finals_agree B l; ok_released_once c B l ].
 
 Definition c05_comp_row (c : comp) (P : params) (bf : bool) (cl : list Z) (B : list task)
   (ret : oret) (l : list oemi) (oheld ocl : list Z) : list bool :=
@@ -186,7 +196,7 @@ Definition ok_raptor (B : list task) (l : list oemi) : bool :=
 Definition c05_raptor_row (B : list task) (ret : oret) (l : list oemi) : list bool :=
   [ eqb_list oemi_eqb (map view (raptor_result_cb B)) l && oret_ok ret;
     ok_survives ret; ok_accounted B [] l; ok_final_xor_forward B l; true; true; true;
-    ok_raptor B l; ok_finals_agree B l ].
+    ok_raptor B l; ok_finals_agree B l; true ].
 
 (* ---------------- the whole pipeline ---------------- *)
 Definition any_fault (t : task) : bool :=
@@ -252,4 +262,6 @@ Definition c05_pipe_row (P : params) (W : list task) (evs : list event)
     ok_failure_recorded l;
     ok_truthful T_CANCELED W evs l;
     ok_truthful T_DONE W evs l;
-    ok_finals_agree W l ].
+    ok_finals_agree W l;
+    (* a task is released at most once along its way (exactly once if it got to the executor) *)
+    forallb (fun t => Nat.leb (ounsched (t_uid t) l) 1) W ].
